@@ -28,7 +28,8 @@ func init() {
 			"distinct = distinct (workload, type, shape/selection class); non-trivial = at least one element transferred",
 		Assumptions: []string{
 			"the HDF5 library is replaced by the pure-Go shim /verif/shim/hdf5 (libhdf5 is not installed); shim semantics follow the HDF5 manual and the gonum binding source, incl. reflect.Int/Uint -> 4-byte H5T_NATIVE_INT/UINT and raw (file-type) transfers",
-			"selection semantics: start'=min(start,size), count=ceil((min(stop,size)-start')/step) clipped at 0; empty selections only require 'error or empty array, no crash'",
+			"selection semantics: start'=min(start,size), count=ceil((min(stop,size)-start')/step) clipped at 0; empty selections require 'an error, or an empty array of exactly the in-memory slice's shape; no crash'",
+			"arrays handed to Write have at least one element (Write inspects element 0 to choose the dataset type); datasets with an axis of extent 0 are made with Create, as ow-sim makes them",
 			"a pending writer can make the lock probe report 'exclusive' while only readers hold the lock: can miss, cannot invent a violation",
 		},
 		Workloads: []core.Workload{
